@@ -455,7 +455,10 @@ class Lib:
                 if tr.category(P.ty(A[0])) == 'riter':
                     n_ = '(unsigned long)(%s.base - %s.base)' % (P.paren(P.ex(A[0])), P.paren(P.ex(A[1])))
                 else:
-                    n_ = '(unsigned long)(%s - %s)' % (P.paren(P.ex(A[1])), P.paren(P.ex(A[0])))
+                    # iterators into storage: the range must be valid (shim_range_len asserts it)
+                    tmp = P.new_temp(lambda nm: 'unsigned long %s' % nm)
+                    return '(%s = shim_range_len(%s, %s, sizeof(%s)), (%s){(%s *)shim_opaque_ptr(), %s, %s})' % (
+                        tmp, P.ex(A[0]), P.ex(A[1]), tr.ctype_t(self.elem(t)), cty, tr.ctype_t(self.elem(t)), tmp, tmp)
                 return '((%s){(%s *)shim_opaque_ptr(), %s, %s})' % (cty, tr.ctype_t(self.elem(t)), n_, n_)
             if not A: return '((%s){0, 0, 0})' % cty
             if same() and not P.is_glvalue(A[0]): return P.ex(A[0])
@@ -565,6 +568,8 @@ class Lib:
             return '((%s)shim_opaque_ptr())' % self.tr.ctype_t(t)
         if name == 'find_if' and len(args) == 3:
             return self.find_if(P, n, args)
+        if name == 'round' and len(args) == 1 and n.get('type', {}).get('qualType') == 'float':
+            return 'roundf(%s)' % P.ex(args[0])      # std::round(float) is the float overload
         if name in ('memcpy', 'memset', 'memcmp', 'strlen', 'abs', 'fabs', 'fabsf', 'floor', 'floorf', 'ceil', 'sqrt', 'round', 'roundf'):
             return '%s(%s)' % (name, ', '.join(P.ex(a) for a in args))
         if name in ('get') and len(args) == 1 and self.tr.category(P.ty(args[0])) == 'pair':
